@@ -81,18 +81,23 @@ def run(res, tier):
     for g in groups:
         for t1 in range(1, TOTAL):
             for sr in (srecs if (g[0] == 16 and g[1] == "collimator" and g[3] == 0 and g[4] == "file") or (tier == "thorough" and g[3] == 0 and g[4] == "file") else [None]):
-                cases.append((g, t1, sr))
+                cases.append((g, t1, sr, 1))
+    # the first leg written with a coarser phase-space cadence: the final state is stored regardless, "the last record" is the state at T1
+    for g in [(16, "collimator", -1, 0, "file"), (16, "none", 0, 0, "gauss")] + ([(24, "collimator", -1, 0, "gauss")] if tier == "thorough" else []):
+        for t1 in range(1, TOTAL):
+            for sv in (2, 3):
+                cases.append((g, t1, None, sv))
     if tier == "quick":   # start-record variants for one configuration per renormalisation sign
         for g in [(16, "collimator", -1, 0, "file"), (16, "none", 0, 0, "file")]:
             for t1 in (3, 8, 15):
                 for sr in (-1, 0, 2, -2):
-                    cases.append((g, t1, sr))
+                    cases.append((g, t1, sr, 1))
 
     def legs(c):
-        g, t1, sr = c
+        g, t1, sr, sv = c
         n, imp, rn, var, st = g
-        tag = "%d_%s_%d_v%d_%s_t%d_s%s" % (n, imp, rn, var, st, t1, sr)
-        a1 = base(n, imp, var) + first_start(n, st) + ["-T", t1 / NPER, "-n", 1, "--SavePhaseSpace", 1, "--RenormalizeCharge", rn]
+        tag = "%d_%s_%d_v%d_%s_t%d_s%s_c%d" % (n, imp, rn, var, st, t1, sr, sv)
+        a1 = base(n, imp, var) + first_start(n, st) + ["-T", t1 / NPER, "-n", 1, "--SavePhaseSpace", sv, "--RenormalizeCharge", rn]
         r1 = pl.run(exe, a1, wd, out="leg1_%s.h5" % tag)
         if r1["rc"] != 0:
             return c, r1, None, None, None, None
@@ -113,14 +118,14 @@ def run(res, tier):
         return c, r1, d1, r2, d2, step_r
 
     for c, r1, d1, r2, d2, step_r in pl.pmap(legs, cases):
-        g, t1, sr = c
+        g, t1, sr, sv = c
         n, imp, rn, var, st = g
-        case = "n=%d impedance=%s renorm=%d split=%d startrecord=%s start=%s%s" % (n, imp, rn, t1, sr, st, (" options=" + "_".join(str(x) for x in VARIANTS[var])) if var else "")
+        case = "n=%d impedance=%s renorm=%d split=%d startrecord=%s start=%s%s%s" % (n, imp, rn, t1, sr, st, (" options=" + "_".join(str(x) for x in VARIANTS[var])) if var else "", " first-leg-SavePhaseSpace=%d" % sv if sv != 1 else "")
         rp = dict(leg1=r1["cmd"], leg2=r2["cmd"] if r2 else None, full=fulls[g][0]["cmd"])
         if d1 is None or d2 is None or "error" in d1 or "error" in d2 or fulls[g][1] is None:
             res.violate("C11/run-failed", case, "leg1 rc=%s leg2 rc=%s %s" % (r1["rc"], r2["rc"] if r2 else None, (r2 or r1)["log"][-200:]), replay=rp)
             continue
-        chosen, chosen_h = last_ps(d1, step_r)
+        chosen, chosen_h = last_ps(d1, -1 if sr is None else step_r)   # the phase-space cadence of the first leg may be coarser than one: "last" is the last record
         first2, first2_h = last_ps(d2, 0)
         final2, final2_h = last_ps(d2, -1)
         finalf, finalf_h = last_ps(fulls[g][1], -1)
